@@ -1,3 +1,4 @@
+mod alloc;
 mod core_mp;
 mod core_pp;
 mod crash;
@@ -41,6 +42,8 @@ fn main() {
         "placement" => crash::placement(&args, &mut sink),
         "flock" => flock::run(&args, &mut sink),
         "stress" => stress::run(&args, &mut sink),
+        "alloc-freelist" => alloc::run_freelist(seed, cases, &mut sink),
+        "alloc-probe" => alloc::run_probe(seed, cases, &mut sink),
         "core-pp" => core_pp::run(seed, cases, &mut sink),
         "core-mp" => core_mp::run(seed, cases, &mut sink),
         "core-mp-corpus" => {
